@@ -20,7 +20,7 @@ ASSUMPTIONS = [
     "prototype table transcribed from the pinned commit (the README names the categories, the values are in code)",
     "statistical clauses can in principle fail by chance with probability < 1e-8 per case",
 ]
-FLOORS = {"all_three_classes_ops_ge3": 0.1, "mode_gap": 0.1, "mode_shift": 0.1, "mode_freq": 0.1}
+FLOORS = {"all_three_classes_ops_ge3": 0.1, "mode_gap": 0.04, "mode_shift": 0.04, "mode_freq": 0.04}
 PROTOS = {(1, "const", 55), (2, "sqrt", 55), (5, "linear3", 45), (15, "linear3", 37.5), (20, "linear7", 30), (40, "linear7", 20),
           (80, "squared", 10)}
 QUERY_PROTO = (15, "linear3", 35)
